@@ -48,6 +48,16 @@ type Table struct {
 	Agg     gpbft.Aggregate
 }
 
+// IndexOf returns the position of member id in the table's entry order (-1 if absent).
+func (t *Table) IndexOf(id gpbft.ActorID) int {
+	for i, e := range t.Entries {
+		if e.ID == id {
+			return i
+		}
+	}
+	return -1
+}
+
 type SchedClass int
 
 const (
